@@ -54,6 +54,14 @@ fn eval_case(case: &J) -> J {
         if let Some(d) = case["max_callstack"].as_u64() {
             eval.set_max_callstack_size(d as usize).unwrap();
         }
+        // `repeat`: evaluate the same program N more times first on the same evaluator (results ignored): error-then-reuse histories
+        if let Some(n) = case["repeat"].as_u64() {
+            for _ in 0..n {
+                if let Ok(a) = AstModule::parse("case.star", case["program"].as_str().unwrap_or("").to_owned(), &Dialect::Standard) {
+                    let _ = eval.eval_module(a, &globals);
+                }
+            }
+        }
         let res = eval.eval_module(ast, &globals);
         let ticks = eval.get_total_tick_count();
         let mut out = match res {
